@@ -205,7 +205,7 @@ def dec(case):
 
 def build_cases(thorough):
     cases = []
-    nm = names(4 if thorough else 3) if thorough else names(3)
+    nm = names(5) if thorough else names(3)
     for n in nm:
         cases.append(("name", n, None))
     tn = names(2)
@@ -266,7 +266,7 @@ def run(ctx):
            "outcomes": labels, "exhaustive": True, "simk_binding": binding, "samples": [enc(c) for c in sample(cases, 8)]}
     return {"coverage": cov, "violations": viols,
             "assumptions": ["simk renders stat/status like fs/proc/array.c (name raw in stat, only \\n and \\\\ escaped in status)",
-                            "names up to %d tokens of the stated alphabet, <= 15 bytes" % (4 if ctx.thorough else 3)]}
+                            "names up to %d tokens of the stated alphabet, <= 15 bytes" % (5 if ctx.thorough else 3)]}
 
 
 def replay(ctx, case):
